@@ -147,6 +147,9 @@ CLAIMED = {
              "online IA monitors compute rho of the transformed formula (C01/C02); for dense time (robustness semantics) the "
              "interface-aware predicate of the offline visitor and of the online operation class is mirrored and proved to return "
              "the dense semantics of the transformed formula (offline list algorithm; online monitor under every chunking). "
+             "On the dense algorithms translated from the source: the interface-aware visitPredicate of the robustness visitors (offline) is "
+             "proved to be predicateIA / predicate (GenDenseIA), genD_eval_all covers every operator but the vacuity override, "
+             "C06_translated_dense_offline_partial. "
              "Correspondence: 5 semantics x random io assignments on the real discrete offline/online/pastified and dense "
              "offline/online monitors vs the model, and the dense lists sample by sample vs the mirrors.",
         note="Lean kernel + standard axioms; the discrete IA override is translated from the source (GenIA); the dense one is a "
@@ -244,12 +247,15 @@ CLAIMED = {
     "C15": dict(
         text="Partial. Machine-checked (Lean 4) on the lexer/parser model: every alias lexes to the token of its long form (so alias "
              "spellings give the same token stream and the same tree), ',' and ':' give the same interval, any number of redundant "
-             "parentheses around an expression give the same tree, and parsing the fully parenthesised rendering of any tree returns "
-             "that tree (round trip). Correspondence on the real front ends (STL, LTL): random formulas under aliases, separators, "
+             "parentheses around an expression give the same tree, parsing the fully parenthesised rendering of any tree returns "
+             "that tree, and so does parsing the MINIMALLY parenthesised rendering (C15_roundtrip_minimal: parentheses only where the "
+             "precedence / left-associativity of the binary operators or a prefix operator in front of a binary operator require "
+             "them); the precedence table and the aliases of the model are checked against the .g4 grammar files regenerated from "
+             "the source (C15Grammar). Correspondence on the real front ends (STL, LTL): random formulas under aliases, separators, "
              "0-3 redundant parentheses, minimal parenthesisation by the precedence table, optional ';' and assertion head, `unless` "
              "sugar - same spec_print() and same evaluation results as the canonical spelling, and equal to the model's tree.",
-        note="Lean kernel + standard axioms; minimal parenthesisation (the model's precedence table vs ANTLR's) is validated by the "
-             "stream, not proved; tie sampled.",
+        note="Lean kernel + standard axioms; the theorems are about the model parser: that ANTLR's generated parser groups as the model "
+             "does is validated by the stream (same trees on minimally parenthesised texts), not proved; tie sampled.",
         technique="Lean 4 proof (lexer alias table, parser lemmas, round trip by structural induction) + metamorphic/differential correspondence",
         design="DESIGN.md §4 C15"),
     "C20": dict(
